@@ -151,6 +151,30 @@ def fixture_inputs():
     return out
 
 
+def _damage_member(data: bytes, suffixes) -> bytes | None:
+    """Flip one byte in the middle of the stored data of the first ZIP member with one of the suffixes (the directory stays intact)."""
+    import struct
+    import zipfile
+    z = zipfile.ZipFile(io.BytesIO(data))
+    for zi in z.infolist():
+        if zi.filename.lower().endswith(suffixes) and zi.compress_size > 8:
+            fn, ex = struct.unpack_from("<HH", data, zi.header_offset + 26)
+            pos = zi.header_offset + 30 + fn + ex + zi.compress_size // 2
+            return data[:pos] + bytes([data[pos] ^ 0x5A]) + data[pos + 1:]
+    return None
+
+
+_OFFICE = None
+
+
+def _gen_office_cached():
+    global _OFFICE
+    if _OFFICE is None:
+        from vf.props.c15 import _gen_office
+        _OFFICE = _gen_office()
+    return _OFFICE
+
+
 def generated_inputs(ctx: Ctx, per_format: int):
     """deterministic (seeded) sample of generated documents of every format."""
     import hypothesis
@@ -196,6 +220,16 @@ def generated_inputs(ctx: Ctx, per_format: int):
             case = {"format": fmt, "opts": {"ct": ct}, "units": [[{"k": "p", "tok": _mk0("B", 8710)}, {"k": "img", "type": "jpeg", "w": 9, "h": 7, "seed": 5}, {"k": "img", "type": "png", "w": 6, "h": 7, "seed": 6},
                                                                    {"k": "img", "type": "bmp", "w": 5, "h": 4, "seed": 7}]]}
             out.append({"name": f"pair:ct-{ct}.{fmt}", "ext": fmt, "data": c14.build(case)[0]})
+    # a picture part whose stored bytes are damaged (CRC mismatch on read): whatever the extractor reports for it must not depend on the process
+    for fmt in ("odt", "odp", "ods", "docx", "pptx", "xlsx", "epub"):
+        if fmt in c14.FORMATS_IMG:
+            case = {"format": fmt, "opts": {}, "units": [[{"k": "p", "tok": _mk0("B", 8720)}, {"k": "img", "type": "png", "w": 23, "h": 17, "seed": 9}, {"k": "p", "tok": _mk0("B", 8721)}]]}
+            raw = _damage_member(c14.build(case)[0], (".png",))
+            if raw is not None:
+                out.append({"name": f"damaged-picture:{fmt}", "ext": PROFILES[fmt]["ext"] if fmt in PROFILES else fmt, "data": raw})
+    # packages without the optional properties part
+    for name in ("gen/nocore-a.pptx", "gen/nopath-nocore-b.pptx", "gen/nocore-a.docx", "gen/nometa-a.odt", "gen/nometa-a.odp"):
+        out.append({"name": "pair:" + name, "ext": name.rsplit(".", 1)[-1], "data": _gen_office_cached()[name]})
     # office documents whose core properties lack one or both timestamps (nothing may be filled in from the clock)
     from vf.gen import ooxml
     from vf.gen.tokens import make as _mk
@@ -314,6 +348,50 @@ def _history_entry(ctx: Ctx):
     return history_shard(ctx, _INPUTS)
 
 
+# ---- (c) a result is not rewritten by later extractions ---------------------------------------------------------------------
+def judge_later_calls(ext, data, later: list):
+    """Extract `data` under one path, serialise it, then run the `later` extractions [(ext, data, path)] in the same process: the first
+    result must still serialise to the same JSON (results share no mutable object with later calls)."""
+    from sharepoint2text.parsing.router import get_extractor
+    try:
+        first = list(get_extractor("x." + ext)(io.BytesIO(data), "/srv/in/first." + ext))
+        snap = [json.dumps(r.to_json(), sort_keys=True, default=repr) for r in first]
+    except Exception:  # noqa
+        return []
+    for i, (e2, d2, p2) in enumerate(later):
+        try:
+            keep = list(get_extractor("x." + e2)(io.BytesIO(d2), p2))      # noqa: F841  (kept alive on purpose)
+        except Exception:  # noqa
+            continue
+        now = [json.dumps(r.to_json(), sort_keys=True, default=repr) for r in first]
+        if now != snap:
+            k = next(j for j, (a, b) in enumerate(zip(snap, now)) if a != b)
+            diff = next((f"{x!r} -> {y!r}" for x, y in zip(snap[k].split(","), now[k].split(",")) if x != y), "")
+            return [("later-call-changes-result", f"to_json() of an extracted .{ext} result changed after a later extraction (#{i + 1}: .{e2}, path {p2!r}): {diff[:200]}")]
+    return []
+
+
+def later_calls_shard(ctx: Ctx, inputs):
+    part = Partial()
+    mine = [it for i, it in enumerate(inputs) if i % ctx.nshards == ctx.shard and len(it["data"]) < 600_000]
+    by_ext = {}
+    for it in inputs:
+        by_ext.setdefault(it["ext"], []).append(it)
+    for it in mine:
+        sib = [x for x in by_ext[it["ext"]] if x is not it and len(x["data"]) < 600_000][:2]
+        later = [(it["ext"], it["data"], "/srv/in/second." + it["ext"]), (it["ext"], it["data"], None)] + [(x["ext"], x["data"], f"/srv/other/{n}." + x["ext"]) for n, x in enumerate(sib)]
+        fails = judge_later_calls(it["ext"], it["data"], later)
+        part.case(digest(["later", it["name"]]), True, sample={"input": it["name"], "later": [p for _, _, p in later]} if part.evaluations % 40 == 0 else None, leg="later-calls")
+        for c, d in fails[:1]:
+            part.violations.append(Violation(c, f"C06:{c}:{it['ext']}", f"[{it['name']}] {d}", {"kind": "later", "name": it["name"], "ext": it["ext"],
+                                                                                                  "bytes_b64": __import__("base64").b64encode(it["data"]).decode() if len(it["data"]) < 200000 else None}))
+    return part
+
+
+def _later_entry(ctx: Ctx):
+    return later_calls_shard(ctx, _INPUTS)
+
+
 def run(ctx: Ctx) -> Partial:
     global _INPUTS
     part = Partial()
@@ -321,6 +399,7 @@ def run(ctx: Ctx) -> Partial:
     _INPUTS = inputs  # inherited by the forked shards
     process_leg(ctx, part, inputs)
     part.merge(shard_map(ctx, "vf.props.c06", "_history_entry", 16))
+    part.merge(shard_map(ctx, "vf.props.c06", "_later_entry", 16))
     return part
 
 
@@ -329,6 +408,10 @@ def replay(ctx: Ctx, payload: dict):
     if not payload.get("bytes_b64"):
         return []
     data = base64.b64decode(payload["bytes_b64"])
+    if payload.get("kind") == "later":
+        ext = payload["ext"]
+        fails = judge_later_calls(ext, data, [(ext, data, "/srv/in/second." + ext), (ext, data, None)])
+        return [Violation(c, f"C06:{c}:{ext}", d, payload) for c, d in fails[:1]]
     if payload.get("kind") == "history":
         fails = judge_history(payload["ext"], data, payload["history"])
         return [Violation(c, f"C06:{c}", d, payload) for c, d in fails[:1]]
